@@ -36,6 +36,27 @@ impl Pairing {
             ),
         }
     }
+    /// The same options spelled through other call chains: naming the (default) bundled database
+    /// explicitly, before or after the property behaviour. All variants mean the same.
+    pub fn options_variant(self, v: usize) -> (EncodeOptions<'static>, DecodeOptions<'static>) {
+        let db = rbx_reflection_database::get();
+        let (eb, dbh) = match self {
+            Pairing::Default => (EncodePropertyBehavior::IgnoreUnknown, DecodePropertyBehavior::IgnoreUnknown),
+            Pairing::Unknown => (EncodePropertyBehavior::WriteUnknown, DecodePropertyBehavior::ReadUnknown),
+            Pairing::NoReflection => (EncodePropertyBehavior::NoReflection, DecodePropertyBehavior::NoReflection),
+        };
+        match v % 3 {
+            0 => self.options(),
+            1 => (
+                EncodeOptions::new().property_behavior(eb).reflection_database(db),
+                DecodeOptions::new().property_behavior(dbh).reflection_database(db),
+            ),
+            _ => (
+                EncodeOptions::new().reflection_database(db).property_behavior(eb),
+                DecodeOptions::new().reflection_database(db).property_behavior(dbh),
+            ),
+        }
+    }
     pub fn format(self) -> Format {
         match self {
             Pairing::NoReflection => Format::XmlNoReflection,
@@ -76,6 +97,7 @@ pub fn xml_profile(max_nodes: usize, known_only: bool, text: TextMode) -> Forest
         exclude_unknown_color3uint8: false,
         exclude_unknown_types: vec![],
         multi_spelling: false,
+        non_serializing: true,
     }
 }
 
@@ -196,11 +218,20 @@ pub fn roundtrip_body(case: &XmlCase, ctx: &mut CaseCtx) -> PropResult {
     let f = &case.forest;
     classify_forest(f, ctx);
     classify_xml(f, ctx);
+    // one case in eight runs after failed saves on this thread (state surviving a failed call would corrupt this save)
+    {
+        let h = f.nodes.len() as u64 * 31 + f.nodes.iter().map(|n| n.props.len() as u64 * 7 + n.name.len() as u64).sum::<u64>();
+        if h % 8 == 3 && super::c07::provoke_failed_saves(h.wrapping_mul(0x9E37_79B9_7F4A_7C15)) > 0 {
+            ctx.label("after_failed_saves_on_this_thread");
+        }
+    }
     ctx.label(case.pairing.label());
     let built = forest::build(f, BuildMode::Builder, None);
     let roots = built.root_refs(f);
     let exp = oracle::expect_roundtrip(f, case.pairing.format(), &attr_blob);
-    let (enc, dec) = case.pairing.options();
+    let variant = f.nodes.len() + f.nodes.iter().map(|n| n.props.len()).sum::<usize>();
+    ctx.label(["options_plain", "options_behaviour_then_database", "options_database_then_behaviour"][variant % 3]);
+    let (enc, dec) = case.pairing.options_variant(variant);
     let bytes = write_xml(&built.dom, &roots, enc)?;
     let decoded = read_xml(&bytes, dec)?;
     ensure!(
@@ -217,6 +248,29 @@ pub fn roundtrip_body(case: &XmlCase, ctx: &mut CaseCtx) -> PropResult {
             case.pairing,
             String::from_utf8_lossy(&bytes).chars().take(1500).collect::<String>()
         );
+    }
+    // every public entry point is the same codec: from_str / *_default must agree with from_reader / to_writer
+    let text = std::str::from_utf8(&bytes).map_err(|e| Fail::new("xml-writer:not-utf8", e.to_string()))?;
+    let via_str = no_panic("rbx_xml::from_str", || rbx_xml::from_str(text, case.pairing.options().1))?
+        .map_err(|e| Fail::new("xml-entry-points:from_str-rejects", format!("from_str rejects what from_reader accepts: {e}")))?;
+    if let Err((key, msg)) = oracle::compare_dom(&exp, &forest::observe(&via_str), &Norm::xml()) {
+        fail!(format!("xml-entry-points:from_str:{key}"), "from_str, unlike from_reader: {msg}");
+    }
+    if case.pairing == Pairing::Default {
+        let mut out = Vec::new();
+        no_panic("rbx_xml::to_writer_default", || rbx_xml::to_writer_default(&mut out, &built.dom, &roots))?
+            .map_err(|e| Fail::new("xml-entry-points:to_writer_default-rejects", e.to_string()))?;
+        ensure!(out == bytes, "xml-entry-points:to_writer_default-differs", "to_writer_default and to_writer(EncodeOptions::default()) write different documents");
+        let a = no_panic("rbx_xml::from_reader_default", || rbx_xml::from_reader_default(bytes.as_slice()))?
+            .map_err(|e| Fail::new("xml-entry-points:from_reader_default-rejects", e.to_string()))?;
+        if let Err((key, msg)) = oracle::compare_dom(&exp, &forest::observe(&a), &Norm::xml()) {
+            fail!(format!("xml-entry-points:from_reader_default:{key}"), "from_reader_default, unlike from_reader(DecodeOptions::default()): {msg}");
+        }
+        let b = no_panic("rbx_xml::from_str_default", || rbx_xml::from_str_default(text))?
+            .map_err(|e| Fail::new("xml-entry-points:from_str_default-rejects", e.to_string()))?;
+        if let Err((key, msg)) = oracle::compare_dom(&exp, &forest::observe(&b), &Norm::xml()) {
+            fail!(format!("xml-entry-points:from_str_default:{key}"), "from_str_default, unlike from_reader(DecodeOptions::default()): {msg}");
+        }
     }
     Ok(())
 }
